@@ -6,7 +6,7 @@ import time
 
 VERIF = os.path.dirname(os.path.dirname(os.path.abspath(__file__)))
 REPLAY = os.path.join(VERIF, 'replay')
-HAVE = {'C01', 'C03', 'C04', 'C05', 'C06', 'C07', 'C08', 'C09', 'C10', 'C11', 'C12', 'C13', 'C14', 'C15', 'C19', 'C20'}
+HAVE = {'C01', 'C02', 'C16', 'C17', 'C18', 'C03', 'C04', 'C05', 'C06', 'C07', 'C08', 'C09', 'C10', 'C11', 'C12', 'C13', 'C14', 'C15', 'C19', 'C20'}
 RIDS = {'C08': ['C08', 'C08Q'], 'C07': ['C07']}     # replay-crate dispatch ids per property (default: the property id)
 _cache = {}
 
